@@ -375,3 +375,78 @@ def shrink_candidates(case):
             for i in range(len(d)):
                 if d[i] != 1.0:
                     yield dict(case, durations=d[:i] + [1.0] + d[i + 1:])
+
+
+# ------------------------------------------------------------------------------------------------
+# conformance: the same histories on the REAL stdlib pools (never decides, never alarms)
+# ------------------------------------------------------------------------------------------------
+
+
+def conformance(root_seed, tier):
+    """Replay a few fault-free histories on the real ThreadPoolExecutor / ProcessPoolExecutor(spawn) /
+    multiprocessing.Pool(spawn) and compare value-vs-raise and values with what the simulated pools gave.
+    Uses only schedule-independent oracles, so it can miss a bug but cannot raise a false alarm: a
+    disagreement is reported in the evidence as `disagreements`, not as a violation."""
+    import concurrent.futures as cf
+    import multiprocessing
+    import os
+
+    import pennylane.concurrency.executors.native.conc_futures as m_cf
+    import pennylane.concurrency.executors.native.multiproc as m_mp
+
+    from simkit.core import Streams, derive_seed
+
+    sim_names = (m_cf.ThreadPoolExecutor, m_cf.ProcessPoolExecutor, m_cf.get_context, m_mp.get_context)
+    want = {"quick": {"cf_threadpool": 6, "cf_procpool": 1, "mp_pool": 1},
+            "thorough": {"cf_threadpool": 30, "cf_procpool": 5, "mp_pool": 5}}[tier]
+    done = {k: 0 for k in want}
+    validated = 0
+    disagreements = []
+    os.environ["VERIF_REAL_POOL"] = "1"
+    idx = 0
+    try:
+        while any(done[k] < want[k] for k in want) and idx < 5000:
+            case = gen_case(Streams(derive_seed(root_seed, "C65-conformance", idx)), tier)
+            idx += 1
+            b = case["backend"]
+            if b not in want or done[b] >= want[b] or case["fault_kinds"]:
+                continue
+            case = dict(case, max_workers=min(case["max_workers"], 3), ops=case["ops"][:3])
+            sim_res = run_case(case)
+            sim_verdicts = sim_res["summary"]["verdicts"]
+            # real pools
+            m_cf.ThreadPoolExecutor, m_cf.ProcessPoolExecutor = cf.ThreadPoolExecutor, cf.ProcessPoolExecutor
+            m_cf.get_context = m_mp.get_context = multiprocessing.get_context
+            try:
+                ex = make_executor(case)
+                real_verdicts = []
+                for op in case["ops"]:
+                    if op["api"] == "shutdown":
+                        ex.shutdown()
+                        continue
+                    exp_kind, exp = reference(op)
+                    try:
+                        got = ("value", call(ex, op))
+                    except Exception as e:  # noqa: BLE001
+                        got = ("raise", type(e).__name__)
+                    if exp_kind == "value" and got[0] == "value":
+                        real_verdicts.append("ok" if same(got[1], exp) else "wrong_result")
+                    elif exp_kind == "value":
+                        real_verdicts.append("unexpected_exception")
+                    else:
+                        real_verdicts.append("ok" if got[0] == "raise" else "missing_exception")
+                ex.shutdown()
+            finally:
+                (m_cf.ThreadPoolExecutor, m_cf.ProcessPoolExecutor, m_cf.get_context, m_mp.get_context) = sim_names
+            done[b] += 1
+            if real_verdicts == sim_verdicts:
+                validated += 1
+            else:
+                disagreements.append({"backend": b, "sim": sim_verdicts, "real": real_verdicts,
+                                      "ops": [[o.get("api"), o.get("fn")] for o in case["ops"]]})
+    finally:
+        os.environ.pop("VERIF_REAL_POOL", None)
+        (m_cf.ThreadPoolExecutor, m_cf.ProcessPoolExecutor, m_cf.get_context, m_mp.get_context) = sim_names
+    return {"validated": validated, "histories_by_backend": done, "disagreements": disagreements[:5],
+            "note": "per-operation verdicts (ok / wrong_result / unexpected_exception / missing_exception) of the "
+                    "same history on the real stdlib pools vs the simulated pools"}
